@@ -9,7 +9,7 @@ from tv.props import c17 as C17
 ID = 'C27'
 LEVEL = 'exploration'
 QUICK_S = 45
-THOROUGH_S = 600
+THOROUGH_S = 300
 TECHNIQUE = ('runtime monitoring: parameter forwarding census - the _tx_model_params of every model created by a load (main + '
              'import closure, seen through all repositories) compared with the arguments given; several metamodels with '
              'different declared sets alive in one process')
@@ -126,7 +126,7 @@ def one(ctx, i, rep=None):
 
 
 def run(ctx):
-    for i in ctx.indices(2000 if ctx.tier == 'quick' else 10000, 'random'):
+    for i in ctx.indices(2000 if ctx.tier == 'quick' else 10 ** 7, 'random'):
         one(ctx, i)
     ctx.count('metamodels_alive', 4)
 
